@@ -197,6 +197,8 @@ P_TimedAllAnswered(s, c) ==
 Props(s, c) ==
   [ C05_AtMostOnce |-> P_AtMostOnce(s, c), C05_StopNilDrainedNow |-> P_StopNilDrainedNow(s, c),
     C05_NoSilentDrop |-> P_NoSilentDrop(s, c),
+    \* C05 states it as well as C08: a caller that keeps receiving is answered also when Stop gave up at its deadline
+    C05_ReceivingCallersAnswered |-> P_WaitersTold(s, c),
     C06_AckNilDurable |-> P_AckNilDurable(s, c), C06_AckErrAbsent |-> P_AckErrAbsent(s, c),
     C06_NeverTwiceVisible |-> P_NeverTwiceVisible(s, c), C06_RejectLeavesNoTrace |-> P_RejectLeavesNoTrace(s, c),
     C06_RefusedAbsent |-> P_RefusedAbsent(s, c),
@@ -204,6 +206,8 @@ Props(s, c) ==
     C08_RefuseAfterStop |-> P_RefuseAfterStop(s, c), C08_NoLateStoreWork |-> P_NoLateStoreWork(s, c),
     C08_StopReturnsByDeadline |-> P_StopReturnsByDeadline(s, c), C08_StopLatency |-> P_StopLatency(s, c),
     C08_WaitersTold |-> P_WaitersTold(s, c),
+    \* C08 states it as well as C05: Stop returns nil only after every accepted batch has been answered
+    C08_StopNilOnlyAfterAnswered |-> (P_StopNilDrainedNow(s, c) /\ P_NoSilentDrop(s, c)),
     C09_Backpressure |-> P_Backpressure(s, c), C09_CanceledCallersReturn |-> P_CanceledCallersReturn(s, c),
     C10_LimitFlushImmediate |-> P_LimitFlushImmediate(s, c), C10_TimeFlush |-> P_TimeFlush(s, c),
     C10_TimedAllAnswered |-> P_TimedAllAnswered(s, c) ]
